@@ -85,6 +85,12 @@ def record_runs(scn, refs, tier, seed):
     # what the consumer's code raises: an ordinary exception, or one of those that are no `Exception`
     # (Ctrl-C while an answer is processed, sys.exit() in the projection, a generator being closed)
     KINDS = [ProjBoom, KeyboardInterrupt, SystemExit, GeneratorExit, ProjBase]
+    # ... and the exceptions evaluate_bounded swallows by design (they are how a recursion overflow shows): the
+    # call returns what it has collected, the query is over and its variables are unbound
+
+    class ProjRuntime(RuntimeError):
+        pass
+    SWALLOWED = [RuntimeError, NotImplementedError, StopIteration, ProjRuntime]
 
     inner_traces = []
 
@@ -120,7 +126,10 @@ def record_runs(scn, refs, tier, seed):
                 inner_traces.append(iev)
             ans = real.project_tuple(vs)
             raises = (count[0] == raise_at)
-            events.append({"ev": "answer", "ans": ans, "raises": raises})
+            swallowed = raises and (L + raise_at) % 3 == 0
+            events.append({"ev": "answer", "ans": ans, "raises": raises, "swallowed": swallowed})
+            if swallowed:
+                raise SWALLOWED[(L // 3 + raise_at) % len(SWALLOWED)]("raised by the projection")
             if raises:
                 raise KINDS[(L + raise_at) % len(KINDS)]()
             return ans
